@@ -144,7 +144,8 @@ def build_message(tier, seed):
                 d.vals.append(int_bound(k, ty, v, "lit" if (ki + vi) % 3 else "const", d))
                 d.derives = ["Debug", "FromStr"]
     float_cases = [("-12.34", Fraction(-1234, 100)), ("-1.0", Fraction(-1)), ("0.0", Fraction(0)), ("0.5", Fraction(1, 2)), ("64.0", Fraction(64)),
-                   ("1e10", Fraction(10) ** 10), ("12.34", Fraction(1234, 100)), ("100", Fraction(100))]
+                   ("1e10", Fraction(10) ** 10), ("12.34", Fraction(1234, 100)), ("100", Fraction(100)), ("-0.0", "NEGZERO"), ("1e-7", Fraction(1, 10 ** 7)),
+                   ("-2.5e-3", Fraction(-25, 10000)), ("16777216.0", Fraction(16777216)), ("1e30", Fraction(10) ** 30)]
     for ty in FLOAT_TYPES:
         for ki, k in enumerate(kinds):
             for vi, (txt, ex) in enumerate(float_cases):
@@ -305,7 +306,11 @@ def build_defaults(tier, seed):
                 d = b.new(inner_int(ty), tags=list(tags))
                 add_with_sanitizer(d, body, sp)
                 d.vals.append(int_bound(k, ty, v, "lit", d))
-                if dsp == "lit":
+                if dsp == "lit" and i % 2 == 1 and sp == "path":
+                    # default given as a function call
+                    d.support.append("fn make_default() -> %s { %s }" % (ty, dtxt))
+                    d.default = ("make_default()", dden)
+                elif dsp == "lit":
                     d.default = (dtxt, dden)
                 else:
                     d.support.append("const DFLT: %s = %s;" % (ty, dtxt))
